@@ -245,3 +245,261 @@ Proof.
     unfold ev_count, ev_sum.
     rewrite (filter_ext_in _ _ evs Hext). reflexivity.
 Qed.
+
+(* =============================================================================================
+   `bin <timefield> span=.. [aligntime=T]`: buckets on a grid with an origin (events on both sides of it)
+   ============================================================================================= *)
+
+(* for EVERY origin and timestamp (also ts < origin): the bucket contains ts and lies on the grid *)
+Lemma grid_bucket_contains : forall origin span ts, 0 < span ->
+  let b := grid_bucket origin span ts in
+  b <= ts /\ ts < b + span /\ (b - origin) mod span = 0.
+Proof.
+  intros origin span ts Hs. unfold grid_bucket. cbv zeta.
+  assert (Hd := Z.div_mod (ts - origin) span ltac:(lia)).
+  assert (Hr := Z.mod_pos_bound (ts - origin) span ltac:(lia)).
+  repeat split; try nia.
+  replace (origin + (ts - origin) / span * span - origin) with ((ts - origin) / span * span) by lia.
+  apply Z.mod_mul. lia.
+Qed.
+
+(* the only grid point whose span contains ts *)
+Lemma grid_bucket_unique : forall origin span ts b, 0 < span ->
+  (b - origin) mod span = 0 -> in_bucket b span ts = true -> b = grid_bucket origin span ts.
+Proof.
+  intros origin span ts b Hs Hg Hin. unfold grid_bucket.
+  unfold in_bucket in Hin. apply andb_true_iff in Hin. destruct Hin as [Ha Hb].
+  apply Z.leb_le in Ha. apply Z.ltb_lt in Hb.
+  apply Z.mod_divide in Hg; [|lia]. destruct Hg as [k Hk].
+  assert (b = origin + k * span) by lia. subst b.
+  assert (k = (ts - origin) / span); [|subst; lia].
+  apply Z.div_unique with (r := ts - origin - k * span); lia.
+Qed.
+
+Lemma grid_bucket_iff : forall origin span ts b, 0 < span ->
+  (grid_bucket origin span ts = b) <-> ((b - origin) mod span = 0 /\ in_bucket b span ts = true).
+Proof.
+  intros origin span ts b Hs. split.
+  - intros <-. destruct (grid_bucket_contains origin span ts Hs) as [Ha [Hb Hc]].
+    split; auto. unfold in_bucket. apply andb_true_iff. split; [apply Z.leb_le | apply Z.ltb_lt]; lia.
+  - intros [Hg Hin]. symmetry. apply grid_bucket_unique; auto.
+Qed.
+
+(* moving the origin by whole spans (in either direction) does not move any bucket *)
+Lemma grid_bucket_shift : forall origin span ts k, 0 < span ->
+  grid_bucket (origin + k * span) span ts = grid_bucket origin span ts.
+Proof.
+  intros origin span ts k Hs. symmetry. apply grid_bucket_unique; auto.
+  - destruct (grid_bucket_contains origin span ts Hs) as [_ [_ Hc]].
+    replace (grid_bucket origin span ts - (origin + k * span))
+      with ((grid_bucket origin span ts - origin) + (- k) * span) by lia.
+    rewrite Z.mod_add by lia. exact Hc.
+  - destruct (grid_bucket_contains origin span ts Hs) as [Ha [Hb _]].
+    unfold in_bucket. apply andb_true_iff. split; [apply Z.leb_le | apply Z.ltb_lt]; lia.
+Qed.
+
+(* a truncating division (Go's int64 `/`) instead of the floor: every timestamp before the origin that is
+   not on a bucket boundary gets a bucket that starts AFTER it (one span too late) *)
+Lemma trunc_bucket_misses_ts : forall origin span ts, 0 < span ->
+  ts < origin -> (origin - ts) mod span <> 0 ->
+  trunc_bucket origin span ts = grid_bucket origin span ts + span /\
+  in_bucket (trunc_bucket origin span ts) span ts = false.
+Proof.
+  intros origin span ts Hs Hlt Hnz.
+  assert (Hq : Z.quot (ts - origin) span = (ts - origin) / span + 1).
+  { replace (ts - origin) with (- (origin - ts)) by lia.
+    rewrite Z.quot_opp_l by lia.
+    rewrite Z.quot_div_nonneg by lia.
+    rewrite Z.div_opp_l_nz by lia. lia. }
+  assert (Heq : trunc_bucket origin span ts = grid_bucket origin span ts + span).
+  { unfold trunc_bucket, grid_bucket. rewrite Hq. lia. }
+  split; [exact Heq|].
+  rewrite Heq. destruct (grid_bucket_contains origin span ts Hs) as [Ha [Hb _]].
+  unfold in_bucket. apply andb_false_iff. left. apply Z.leb_gt. lia.
+Qed.
+
+(* at or after the origin, and on bucket boundaries before it, floor and truncation agree: the difference is
+   confined to the timestamps named in trunc_bucket_misses_ts *)
+Lemma trunc_bucket_agrees : forall origin span ts, 0 < span ->
+  (origin <= ts \/ (origin - ts) mod span = 0) ->
+  trunc_bucket origin span ts = grid_bucket origin span ts.
+Proof.
+  intros origin span ts Hs [Hge | Hz]; unfold trunc_bucket, grid_bucket.
+  - rewrite Z.quot_div_nonneg by lia. reflexivity.
+  - destruct (Z_le_gt_dec origin ts) as [Hge | Hlt].
+    + rewrite Z.quot_div_nonneg by lia. reflexivity.
+    + replace (ts - origin) with (- (origin - ts)) by lia.
+      rewrite Z.quot_opp_l by lia. rewrite Z.quot_div_nonneg by lia.
+      rewrite Z.div_opp_l_z by lia. reflexivity.
+Qed.
+
+(* aligntime: the returned bucket contains ts; it is on the grid of the align time unless clamped to 0 *)
+Lemma bin_align_contains : forall span align ts, 0 < span -> 0 <= ts ->
+  let b := bin_align span align ts in
+  b <= ts /\ ts < b + span /\ (span <= ts -> b = grid_bucket align span ts /\ (b - align) mod span = 0).
+Proof.
+  intros span align ts Hs Hts. unfold bin_align. cbv zeta.
+  destruct (grid_bucket_contains align span ts Hs) as [Ha [Hb Hc]].
+  destruct (grid_bucket align span ts <? 0) eqn:E.
+  - apply Z.ltb_lt in E. repeat split; try lia.
+  - repeat split; auto; lia.
+Qed.
+
+Lemma bin_trunc_is_grid : forall span ts, 0 < span ->
+  bin_trunc span ts = grid_bucket (- go_zero_ms) span ts.
+Proof.
+  intros span ts Hs. unfold bin_trunc, grid_bucket.
+  replace (ts - - go_zero_ms) with (ts + go_zero_ms) by lia.
+  assert (Hd := Z.div_mod (ts + go_zero_ms) span ltac:(lia)). lia.
+Qed.
+
+Lemma bin_days_contains : forall w ts, 0 < w -> 0 <= ts ->
+  let b := bin_days w ts in
+  b <= ts /\ ts < b + w * day_ms /\ b mod (w * day_ms) = 0.
+Proof.
+  intros w ts Hw Hts. unfold bin_days, day_ms. cbv zeta.
+  assert (Hd1 := Z.div_mod ts 86400000 ltac:(lia)).
+  assert (Hr1 := Z.mod_pos_bound ts 86400000 ltac:(lia)).
+  assert (Hd2 := Z.div_mod (ts / 86400000) w ltac:(lia)).
+  assert (Hr2 := Z.mod_pos_bound (ts / 86400000) w ltac:(lia)).
+  repeat split; try nia.
+  replace (ts / 86400000 / w * w * 86400000) with ((ts / 86400000 / w) * (w * 86400000)) by lia.
+  apply Z.mod_mul. lia.
+Qed.
+
+Lemma bin_days_is_grid : forall w ts, 0 < w -> 0 <= ts ->
+  bin_days w ts = grid_bucket 0 (w * day_ms) ts.
+Proof.
+  intros w ts Hw Hts. apply grid_bucket_unique; [unfold day_ms; lia| |].
+  - rewrite Z.sub_0_r. apply bin_days_contains; auto.
+  - destruct (bin_days_contains w ts Hw Hts) as [Ha [Hb _]].
+    unfold in_bucket. apply andb_true_iff. split; [apply Z.leb_le | apply Z.ltb_lt]; lia.
+Qed.
+
+Lemma unit_ms_pos : forall u, 0 < unit_ms u.
+Proof. destruct u; simpl; lia. Qed.
+
+(* the origin of the bucket grid of `bin span=<n><u> [aligntime=a]` *)
+Definition bin_origin (u : tunit) (align : option Z) : Z :=
+  match u with
+  | UDay | UWeek => 0
+  | _ => match align with None => - go_zero_ms | Some a => a end
+  end.
+
+(* every unit, with and without aligntime, events before / at / after the align time: one grid function *)
+Lemma bin_time_is_grid : forall u n align ts, 0 < n -> bin_span u n <= ts ->
+  bin_time u n align ts = grid_bucket (bin_origin u align) (bin_span u n) ts.
+Proof.
+  intros u n align ts Hn Hts.
+  assert (Hsp : 0 < bin_span u n) by (unfold bin_span; pose proof (unit_ms_pos u); nia).
+  assert (Hgen : forall a, bin_align (bin_span u n) a ts = grid_bucket a (bin_span u n) ts).
+  { intros a. destruct (bin_align_contains (bin_span u n) a ts Hsp ltac:(lia)) as [_ [_ H]].
+    apply H. exact Hts. }
+  destruct u; simpl bin_time; simpl bin_origin;
+    try (destruct align as [a|]; [apply Hgen | apply bin_trunc_is_grid; exact Hsp]).
+  - (* day *) unfold bin_span in *. simpl unit_ms in *. change (86400000 / day_ms) with 1.
+    rewrite bin_days_is_grid by lia. unfold day_ms. f_equal; lia.
+  - (* week *) unfold bin_span in *. simpl unit_ms in *. change (604800000 / day_ms) with 7.
+    rewrite bin_days_is_grid by lia. unfold day_ms. f_equal; lia.
+Qed.
+
+Lemma bin_time_contains_ts : forall u n align ts, 0 < n -> bin_span u n <= ts ->
+  let b := bin_time u n align ts in
+  b <= ts /\ ts < b + bin_span u n /\ (b - bin_origin u align) mod bin_span u n = 0.
+Proof.
+  intros u n align ts Hn Hts. cbv zeta. rewrite bin_time_is_grid by auto.
+  apply grid_bucket_contains. unfold bin_span. pose proof (unit_ms_pos u). nia.
+Qed.
+
+(* `bin .. | stats count, sum(f) by <binned time>`: one row per occupied bucket; the row of a grid point holds
+   exactly the events whose timestamp lies in its span, and nothing else appears.  No assumption on where the
+   events lie relative to the align time. *)
+Lemma chart_by_grid_partition : forall origin span (evs : list (Z * Z)), 0 < span ->
+  let tc := chart_by (grid_bucket origin span) evs in
+  NoDup (map fst tc) /\
+  (forall b, In b (map fst tc) -> (b - origin) mod span = 0 /\ exists e, In e evs /\ in_bucket b span (fst e) = true) /\
+  (forall b, (b - origin) mod span = 0 ->
+     tc_lookup b tc =
+       (Z.of_nat (length (filter (fun e => in_bucket b span (fst e)) evs)),
+        fold_right Z.add 0 (map snd (filter (fun e => in_bucket b span (fst e)) evs)))).
+Proof.
+  intros origin span evs Hs tc. unfold tc, chart_by.
+  split; [apply tc_fold_nodup; constructor|]. split.
+  - intros b Hin. apply tc_fold_keys in Hin. destruct Hin as [[]|Hin].
+    apply in_map_iff in Hin. destruct Hin as [e [He Hine]].
+    apply grid_bucket_iff in He; auto. destruct He as [Hg Hi]. split; auto. exists e; auto.
+  - intros b Hg. rewrite tc_fold_inv. simpl.
+    assert (Hext : forall e, In e evs -> (grid_bucket origin span (fst e) =? b) = in_bucket b span (fst e)).
+    { intros e _. destruct (in_bucket b span (fst e)) eqn:Hi.
+      - apply Z.eqb_eq. apply grid_bucket_iff; auto.
+      - apply Z.eqb_neq. intros Heq. apply grid_bucket_iff in Heq; auto. destruct Heq. congruence. }
+    unfold ev_count, ev_sum. rewrite (filter_ext_in _ _ evs Hext). reflexivity.
+Qed.
+
+Lemma chart_by_ext : forall (k1 k2 : Z -> Z) (evs : list (Z * Z)),
+  (forall e, In e evs -> k1 (fst e) = k2 (fst e)) -> chart_by k1 evs = chart_by k2 evs.
+Proof.
+  intros k1 k2 evs. unfold chart_by. generalize (@nil (Z * (Z * Z))).
+  induction evs as [|e r IH]; intros acc H; simpl; auto.
+  rewrite (H e) by (left; auto). apply IH. intros; apply H; right; auto.
+Qed.
+
+Lemma bin_chart_partition : forall u n align (evs : list (Z * Z)), 0 < n ->
+  Forall (fun e => bin_span u n <= fst e) evs ->
+  let span := bin_span u n in
+  let origin := bin_origin u align in
+  let tc := bin_chart u n align evs in
+  NoDup (map fst tc) /\
+  (forall b, In b (map fst tc) -> (b - origin) mod span = 0 /\ exists e, In e evs /\ in_bucket b span (fst e) = true) /\
+  (forall b, (b - origin) mod span = 0 ->
+     tc_lookup b tc =
+       (Z.of_nat (length (filter (fun e => in_bucket b span (fst e)) evs)),
+        fold_right Z.add 0 (map snd (filter (fun e => in_bucket b span (fst e)) evs)))).
+Proof.
+  intros u n align evs Hn Hall. cbv zeta. unfold bin_chart.
+  rewrite (chart_by_ext (bin_time u n align) (grid_bucket (bin_origin u align) (bin_span u n))).
+  - apply chart_by_grid_partition. unfold bin_span. pose proof (unit_ms_pos u). nia.
+  - intros e He. rewrite Forall_forall in Hall. apply bin_time_is_grid; auto.
+Qed.
+
+(* the rows add up to the number of events: nothing is lost, nothing is counted twice *)
+Lemma chart_by_total : forall (key : Z -> Z) (evs : list (Z * Z)),
+  fold_right Z.add 0 (map (fun r => fst (snd r)) (chart_by key evs)) = Z.of_nat (length evs).
+Proof.
+  intros key evs. unfold chart_by.
+  assert (G : forall acc, fold_right Z.add 0 (map (fun r : Z * (Z * Z) => fst (snd r))
+      (fold_left (fun a e => tc_add (key (fst e)) (snd e) a) evs acc))
+      = fold_right Z.add 0 (map (fun r : Z * (Z * Z) => fst (snd r)) acc) + Z.of_nat (length evs)).
+  { induction evs as [|e r IH]; intros acc; simpl; [lia|].
+    rewrite IH.
+    assert (A : forall b v (l : list (Z * (Z * Z))),
+      fold_right Z.add 0 (map (fun r : Z * (Z * Z) => fst (snd r)) (tc_add b v l))
+      = fold_right Z.add 0 (map (fun r : Z * (Z * Z) => fst (snd r)) l) + 1).
+    { intros b v l. induction l as [|[b' [c s]] l' IHl]; simpl; [lia|].
+      destruct (b' =? b); simpl; lia. }
+    rewrite A. lia. }
+  rewrite G. simpl. lia.
+Qed.
+
+(* the clamp: a timestamp smaller than one span whose grid bucket would start below 0 is reported under 0 *)
+Lemma bin_align_clamp_example : bin_align 10 5 2 = 0 /\ grid_bucket 5 10 2 = -5.
+Proof. vm_compute. auto. Qed.
+
+(* ---- timechart span=<n><unit>: the interval that is used ---- *)
+Lemma tc_interval_is_span : forall u n, tc_interval u n = bin_span u n.
+Proof. intros u n. destruct u; unfold tc_interval, bin_span; simpl; lia. Qed.
+
+(* before fix c9c5b98: span=5cs asks for 50 ms buckets; the interval used was 50 000 000 ms: an event 1.5 s after the
+   range start was counted in the bucket that starts at the range start, whose 50 ms span does not contain it *)
+Lemma tc_interval_prefix_cs_ds_refuted :
+  exists u n start end_ ts b, 0 < n /\ start <= ts /\ ts < end_ /\
+    tc_interval_prefix u n <> bin_span u n /\
+    find_bucket start end_ (tc_interval_prefix u n) ts = Some b /\
+    in_bucket b (bin_span u n) ts = false.
+Proof.
+  exists UCs, 5, T0, (T0 + 2000), (T0 + 1500), T0. unfold T0.
+  repeat split; try lia; vm_compute; congruence.
+Qed.
+
+Lemma tc_interval_prefix_guarded : forall u n, u <> UCs -> u <> UDs -> tc_interval_prefix u n = bin_span u n.
+Proof. intros u n H1 H2. rewrite <- tc_interval_is_span. destruct u; try congruence; reflexivity. Qed.
